@@ -145,6 +145,16 @@ func phaseA(c *core.Ctx, kind string) {
 		if c.R.Chance(1, 8) {
 			c.Begin(kind, "Clear")
 			x.C.Clear()
+		} else if (kind == "BinaryHeap" || kind == "PriorityQueue") && c.R.Chance(1, 10) {
+			// heaps above a thousand elements too (their Values() costs tens of
+			// milliseconds there, so these cases run with two readers and one round)
+			n := c.R.Range(1026, 1100)
+			c.Begin(kind, "grow-to", n)
+			for i := 0; i < n; i++ {
+				x.PutWide(c.R)
+			}
+			x.Big = true
+			c.Count("phaseA:big-heaps", 1)
 		} else if c.R.Chance(1, 16) && kind != "BinaryHeap" && kind != "PriorityQueue" {
 			// more than a thousand elements at the time of the reads (code paths
 			// chosen by size: sentinel scans, chunked copies, parallel helpers)
@@ -161,6 +171,9 @@ func phaseA(c *core.Ctx, kind string) {
 	c.Note("the same history again, on the twin that answers sequentially")
 	twin := mk()
 	fp := func(x *Dyn) (Obs, []any, string) {
+		if x.Big {
+			return x.Observe(false), nil, "" // (one Values() instead of five equivalents)
+		}
 		o := x.Observe(true)
 		var w []any
 		if x.Walk != nil {
@@ -178,6 +191,21 @@ func phaseA(c *core.Ctx, kind string) {
 	// from the untouched twin AFTER the join.
 	catT := twin.Reads()
 	cat := d.Reads()
+	if d.Big {
+		// the cheap half of the catalogue only (each iterator walk of a big heap
+		// costs as much as Values())
+		keep := func(ops []ReadOp) []ReadOp {
+			var out []ReadOp
+			for _, o := range ops {
+				switch o.Name {
+				case "Values", "Size", "Empty", "Peek", "ToJSON":
+					out = append(out, o)
+				}
+			}
+			return out
+		}
+		catT, cat = keep(catT), keep(cat)
+	}
 	if len(cat) == 0 || len(cat) != len(catT) {
 		c.Fail("harness", "", "read catalogues of %s and its twin differ (%d vs %d)", kind, len(cat), len(catT))
 	}
@@ -185,6 +213,9 @@ func phaseA(c *core.Ctx, kind string) {
 	rounds := 2
 	if c.Tier == "thorough" {
 		rounds = 6
+	}
+	if d.Big {
+		G, rounds = 2, 1
 	}
 	c.Begin(kind, "concurrent-readers", G, rounds, len(cat))
 	raceBefore := raceLogSize()
@@ -784,6 +815,7 @@ func init() {
 			f.atLeast("phaseA:containers", 500)
 			f.atLeast("phaseA:big-containers", 60)
 			f.atLeast("phaseA:big-wrapped-rings", 10)
+			f.atLeast("phaseA:big-heaps", 6)
 			f.atLeast("phaseA:overlapping-call-pairs", 20000)
 			f.atLeast("phaseB:histories", 200)
 			f.atLeast("phaseB:porcupine-ok", 200)
